@@ -115,7 +115,7 @@ func genC14Case(t *rapid.T) C14Case {
 		nd := rapid.IntRange(1, 3).Draw(t, "vacdels")
 		for i := 0; i < nd; i++ {
 			k := rapid.SampledFrom(intKeys(16)).Draw(t, "vacdelkey")
-			steps = append(steps, MWStep{Op: "stmt", W: 0, Stmts: []Stmt{{Kind: "del", Keys: []Val{k}, T: int64(40*256 + i)}}})
+			steps = append(steps, MWStep{Op: "stmt", W: 0, Stmts: []Stmt{{Kind: "del", Keys: []Val{k}, T: int64(41*256 + i)}}})
 		}
 		c.Prefix.Steps = steps
 		c.Cut = -1
@@ -446,8 +446,30 @@ func runC14(c C14Case, o *Obs) error {
 				return nil
 			}
 		}
+		logFrom := st.LogLen()
 		res := h.runTarget(c, view, r.snaps)
 		st.Intercept = nil
+		if os.Getenv("VERIF_TRACE") != "" {
+			fmt.Fprintf(os.Stderr, "== %s -> %v\n", desc, res.err)
+			for _, q := range st.LogSince(logFrom) {
+				fmt.Fprintf(os.Stderr, "   %s\n", q)
+			}
+			for _, k := range st.Keys(r.spec.Prefix) {
+				if !strings.Contains(k, "/node/") {
+					fmt.Fprintf(os.Stderr, "   now: %s\n", k)
+				}
+			}
+			for _, k := range r.store.Keys(r.spec.Prefix) {
+				if !strings.Contains(k, "/node/") {
+					fmt.Fprintf(os.Stderr, "   was: %s\n", k)
+				}
+			}
+			for _, q := range st.Log() {
+				if q.Client == "verif://late" {
+					fmt.Fprintf(os.Stderr, "   L %s\n", q)
+				}
+			}
+		}
 		if md.name == "deadline" {
 			if err := h.conn.Exec("update s3db_conn set deadline=NULL"); err != nil {
 				h.close()
